@@ -26,12 +26,13 @@ BlockSize == 512
 (* ======================= writer ======================= *)
 Label4(s) == [i \in 1..4 |-> IF i <= Len(s) THEN s[i] ELSE 0]       \* event label: exactly four bytes, NUL padded
 RepWord(w, n) == Flatten([i \in 1..n |-> LE16(w)])
-HeaderBytes(h, dstart) ==
-  <<2, 80>> \o LE16(h.npts) \o LE16(h.meas) \o LE16(h.first + 1) \o LE16(h.last + 1) \o LE16(h.gap)
+HeaderBytesP(h, paddr, dstart) ==
+  <<paddr, 80>> \o LE16(h.npts) \o LE16(h.meas) \o LE16(h.first + 1) \o LE16(h.last + 1) \o LE16(h.gap)
   \o LE32(h.scale) \o LE16(dstart) \o LE16(h.perframe) \o h.rate \o RepWord(h.eb1, 135)
   \o LE16(h.klp) \o LE16(h.fbkl) \o LE16(h.fcp) \o LE16(h.nev) \o LE16(h.eb2)
   \o Flatten(h.evt) \o Flatten([i \in 1..9 |-> LE16(h.evd[i])]) \o LE16(h.eb3)
   \o Flatten([i \in 1..18 |-> Label4(h.evl[i])]) \o RepWord(h.eb4, 22)
+HeaderBytes(h, dstart) == HeaderBytesP(h, 2, dstart)      \* ezc3d always announces the parameters in block 2
 
 NameLenByte(n, l) == LowByte(IF l = 1 THEN 0 - Len(n) ELSE Len(n))
 HasSize(dim) == IF dim = <<>> THEN 0 ELSE Product(dim)
@@ -213,9 +214,12 @@ ContentHdr(h) == [npts |-> h.npts, meas |-> h.meas, first |-> h.first, last |-> 
                   gap |-> h.gap, nev |-> h.nev, evt |-> h.evt, evd |-> h.evd, evl |-> h.evl, klp |-> h.klp, fbkl |-> h.fbkl, fcp |-> h.fcp,
                   nframes |-> HdrFrames(h), nanalogs |-> HdrAnalogs(h)]
 DropDataStart(g) == IF g.n = sPOINT THEN [g EXCEPT !.p = SelectSeq(@, LAMBDA q : q.n # sDATA_START)] ELSE g
+\* sub-frames without any channel carry no sample: a frame read from a file without analog channels has header-many empty
+\* sub-frames, the frame it was saved from had none
+NormFrames(frm) == [i \in 1..Len(frm) |-> [frm[i] EXCEPT !.a = IF \A s \in 1..Len(@) : @[s] = <<>> THEN <<>> ELSE @]]
 Content(obj) == [hdr |-> ContentHdr(obj.hdr),
                  grp |-> LET ng == NamedGroups(obj.grp) IN [i \in 1..Len(ng) |-> DropDataStart(ContentGroup(ng[i]))],
-                 frm |-> obj.frm]
+                 frm |-> NormFrames(obj.frm)]
 
 (* ======================= independent decoder (format document) ======================= *)
 \* follows the chain of next-offsets; never assumes records are contiguous
@@ -224,8 +228,74 @@ Chain(b, pos, fuel) ==
   IF fuel = 0 \/ pos >= Len(b) THEN <<>>
   ELSE LET r == Rec(b, pos) IN
        IF r.kind = "end" THEN <<r>> ELSE IF r.off = 0 THEN <<r>> ELSE <<r>> \o Chain(b, NextOf(r), fuel - 1)
-\* data start block according to the file itself
-DataStartOf(b, z) == U16At(b, z + 16)
+\* Decode follows only what the file says about itself: the parameter block address in byte 1, the chain of next-offsets,
+\* group ids (records in any order), the data block number in header word 9, the frame range in header words 4-5, the counts
+\* in header words 2-3 and 10. It returns the content in the shape of Content(obj), or [bad |-> reason].
+Decode(b) ==
+  LET z == CountZeros(b, 0)
+      h == ReadHeader(b, z)
+      ps == BlockSize * (h.paddr - 1) + z
+      patched == B(b, ps) = 0 /\ B(b, ps + 1) = 0
+      first == ps + 4 + (IF patched THEN 1 ELSE B(b, ps)) - 1
+      recs == Chain(b, first, MaxRecords)
+      grecs == {k \in 1..Len(recs) : recs[k].kind = "group"}
+      precs == {k \in 1..Len(recs) : recs[k].kind = "param"}
+      ids == {recs[k].id : k \in grecs}
+      RECURSIVE SortedD(_)
+      SortedD(S) == IF S = {} THEN <<>> ELSE LET m == CHOOSE x \in S : \A y \in S : x <= y IN <<m>> \o SortedD(S \ {m})
+      idseq == SortedD(ids)
+      gOf(id) == recs[CHOOSE k \in grecs : recs[k].id = id]
+      pOf(id) == SortedD({k \in precs : recs[k].id = id})
+      mkP(k) == [n |-> Upper(CutAtNul(recs[k].nameRaw)), d |-> CutAtNul(recs[k].desc), l |-> recs[k].lock, t |-> recs[k].t, dim |-> recs[k].dim, v |-> recs[k].v]
+      groups == [i \in 1..Len(idseq) |->
+                   [n |-> Upper(CutAtNul(gOf(idseq[i]).nameRaw)), d |-> CutAtNul(gOf(idseq[i]).desc), l |-> gOf(idseq[i]).lock,
+                    p |-> LET ks == pOf(idseq[i]) IN [j \in 1..Len(ks) |-> mkP(ks[j])]]]
+      find(gn, pn) == LET gi == IndexOfFirst(groups, LAMBDA g : g.n = gn) IN
+                      IF gi = 0 THEN 0 ELSE IndexOfFirst(groups[gi].p, LAMBDA q : q.n = pn)
+      labels(gn) == LET gi == IndexOfFirst(groups, LAMBDA g : g.n = gn)  pi == find(gn, sLABELS) IN
+                    IF pi = 0 THEN <<>> ELSE IF groups[gi].p[pi].t = TCHAR THEN groups[gi].p[pi].v ELSE <<>>
+      np == h.npts  ns == h.perframe  na == IF ns = 0 THEN 0 ELSE h.meas \div ns
+      nf == IF np = 0 /\ na = 0 THEN 0 ELSE h.last - h.first + 1
+      dpos == BlockSize * (h.dstart - 1) + z
+      fsz == 16 * np + 4 * na * ns
+      pl == labels(sPOINT)  al == labels(sANALOG)
+      frames == [j \in 1..nf |->
+                  LET fp == dpos + (j - 1) * fsz IN
+                  [p |-> [i \in 1..np |-> [n |-> TrimRight(IF i <= Len(pl) THEN pl[i] ELSE UnlabeledP(i - 1)),
+                                            v |-> <<F32At(b, fp + 16 * (i - 1)), F32At(b, fp + 16 * (i - 1) + 4), F32At(b, fp + 16 * (i - 1) + 8), F32At(b, fp + 16 * (i - 1) + 12)>>]],
+                   a |-> [s \in 1..ns |-> [i \in 1..na |-> [n |-> TrimRight(IF i <= Len(al) THEN al[i] ELSE UnlabeledA(i - 1)),
+                                                             v |-> F32At(b, fp + 16 * np + 4 * ((s - 1) * na + (i - 1)))]]]]]
+  IN IF z >= Len(b) \/ B(b, z + 1) # 80 THEN [bad |-> "header key"]
+     ELSE IF ~(patched \/ B(b, ps + 1) = 80) THEN [bad |-> "parameter key"]
+     ELSE IF recs = <<>> \/ recs[Len(recs)].kind # "end" THEN [bad |-> "chain"]
+     ELSE IF \E k \in precs : recs[k].t = TNONE \/ recs[k].id \notin ids THEN [bad |-> "parameter type / group"]
+     ELSE IF nf < 0 \/ dpos + nf * fsz > Len(b) THEN [bad |-> "data"]
+     ELSE [hdr |-> ContentHdr(h), grp |-> [i \in 1..Len(groups) |-> DropDataStart(groups[i])], frm |-> NormFrames(frames)]
+
+(* ======================= encoder over layout variants (generator for C02 / C04 / C12 / C16) ======================= *)
+\* lay == [zeros, paddr, zeroPrologue, gids, rev, scalarAsArray]: zero bytes before the header, parameter block number (2 or 3),
+\* zeroed parameter-section prologue, file group id of the i-th group (any injective assignment, sparse allowed), groups written
+\* in reverse order, 1-element parameters written with one dimension instead of as scalars.
+DefaultLayout(n) == [zeros |-> 0, paddr |-> 2, zeroPrologue |-> FALSE, gids |-> [i \in 1..n |-> i], rev |-> FALSE, scalarAsArray |-> FALSE]
+DimBytesL(p, lay) == IF p.dim = <<1>> /\ ~lay.scalarAsArray THEN <<0>> ELSE <<LowByte(Len(p.dim))>> \o [i \in 1..Len(p.dim) |-> LowByte(p.dim[i])]
+\* a foreign writer stores names as they are (no upper-casing) and any 16-bit DATA_START
+ParamRecL(p, gid, dstart, lay) ==
+  LET body == <<LowByte(p.t)>> \o DimBytesL(p, lay) \o ParamData(p, dstart) \o <<LowByte(Len(p.d))>> \o p.d
+  IN <<NameLenByte(p.n, p.l), LowByte(gid)>> \o p.n \o LE16(2 + Len(body)) \o body
+GroupRecL(g, gid, dstart, lay) ==
+  <<NameLenByte(g.n, g.l), LowByte(0 - gid)>> \o g.n \o LE16(3 + Len(g.d)) \o <<LowByte(Len(g.d))>> \o g.d
+  \o Flatten([k \in 1..Len(g.p) |-> ParamRecL(g.p[k], gid, dstart, lay)])
+BodyL(obj, lay, nblk, dstart) ==
+  LET n == Len(obj.grp)  ord == [k \in 1..n |-> IF lay.rev THEN n + 1 - k ELSE k] IN
+  (IF lay.zeroPrologue THEN <<0, 0>> ELSE <<1, 80>>) \o <<LowByte(nblk), 84>>
+  \o Flatten([k \in 1..n |-> GroupRecL(obj.grp[ord[k]], lay.gids[ord[k]], dstart, lay)])
+EncodeWith(obj, lay) ==
+  LET len0 == Len(BodyL(obj, lay, 0, 0))
+      nblk == (len0 + PadLen(len0)) \div BlockSize
+      dstart == lay.paddr + nblk
+      body == BodyL(obj, lay, nblk, dstart)
+  IN Zeros(lay.zeros) \o HeaderBytesP(obj.hdr, lay.paddr, dstart) \o Zeros(BlockSize * (lay.paddr - 2))
+     \o body \o Zeros(PadLen(Len(body))) \o DataBytes(obj.frm)
 
 (* ======================= C03: a saved file is self-consistent ======================= *)
 \* bytes b were written for an object whose content is c (= Content(obj)); every pointer is checked against where the sections
